@@ -19,7 +19,7 @@ RULE = ("each case: a server holding a complete immutable share, an in-progress 
         "distinct by whole case.")
 LEVEL_TEXT = "Random search over the credential space of every route with a snapshot oracle."
 ASSUMPTIONS = ["TLS and the NURL handshake are outside the harness", "duplicated Authorization headers that include the correct value are not asserted either way"]
-REQUIRED_CLASSES = ["mutable-share-recreated-under-new-enabler", "foreign-upload-after-reallocation", "wrong-swissnum", "missing-authorization", "swissnum-prefix", "secrets-missing", "secrets-malformed", "wrong-upload-secret", "wrong-write-enabler", "wrong-enabler-new-share-only",
+REQUIRED_CLASSES = ["secret-base64-with-junk", "mutable-share-recreated-under-new-enabler", "foreign-upload-after-reallocation", "wrong-swissnum", "missing-authorization", "swissnum-prefix", "secrets-missing", "secrets-malformed", "wrong-upload-secret", "wrong-write-enabler", "wrong-enabler-new-share-only",
                     "legit-ok", "route-read", "route-write"]
 BUDGET = {"quick": 900, "thorough": 7200}
 SW = b"swissnum-" + b"x" * 23
@@ -199,7 +199,14 @@ def run_case(case, ctx):
                 xs.append(xs[rq["which"] % len(xs)])          # same key twice with the same value: the set of keys is still right
             elif sec == "bad-b64" and needed:
                 i = rq["which"] % len(xs)
-                xs[i] = xs[i].split(" ")[0] + " ***"; secrets_ok = False
+                if rq["arg"] % 2:
+                    xs[i] = xs[i].split(" ")[0] + " ***"
+                else:
+                    # the right secret's base64 text with characters from outside the base64 alphabet mixed in: not a base64 string any more
+                    k_, v_ = xs[i].split(" ", 1)
+                    xs[i] = k_ + " !*" + "(~)".join(v_[j:j + 3] for j in range(0, len(v_), 3))
+                    classes.add("secret-base64-with-junk")
+                secrets_ok = False
             elif sec == "empty" and needed:
                 i = rq["which"] % len(xs)
                 xs[i] = xs[i].split(" ")[0] + " "; secrets_ok = False
